@@ -553,8 +553,8 @@ pub fn run_encoder(ch: &mut Chooser, ctx: &mut Ctx) {
                 };
                 let recycled = work.is_some();
                 let need = enc_need(new_kind, next);
-                let mut acc = AllocStats::default();
-                let res = ctx.guarded(true, || meas(&mut acc, || enc_new(new_kind, next.0, next.1, next.2, work)));
+                let res = ctx.guarded(true, || enc_new(new_kind, next.0, next.1, next.2, work));
+                let acc = take_ctor_stats();
                 let res = match res {
                     Ok(v) => v,
                     Err(msg) => {
@@ -1166,8 +1166,8 @@ pub fn run_decoder(ch: &mut Chooser, ctx: &mut Ctx) {
                 };
                 let recycled = work.is_some();
                 let need = dec_need(new_kind, next);
-                let mut acc = AllocStats::default();
-                let res = ctx.guarded(true, || meas(&mut acc, || dec_new(new_kind, next.0, next.1, next.2, work)));
+                let res = ctx.guarded(true, || dec_new(new_kind, next.0, next.1, next.2, work));
+                let acc = take_ctor_stats();
                 let res = match res {
                     Ok(v) => v,
                     Err(msg) => {
